@@ -62,6 +62,13 @@ def rtransform(rng):
 
 
 def rpath_d(rng, closed=True, curvy=True):
+    if rng.random() < 0.04:
+        # whole numbers and one tiny coordinate that prints in exponent form (no decimal point anywhere)
+        x, y, w = rng.randint(10, 60), rng.randint(10, 60), rng.randint(8, 30)
+        t = rng.choice(["1e-5", "-4e-6", "7e-8", "3e-05"])
+        return rng.choice(["M%d,%d L%d,%d L%d,%s Z" % (x, y, x + w, y, x + w, t),
+                           "M%d,%d l%d,0 l%s,%d z" % (x, y, w, t, w),
+                           "M%s,%d L%d,%d L%d,%d Z" % (t, y, x + w, y + w, x, y + w)])
     n = rng.randint(3, 6)
     cx, cy = rng.uniform(20, 80), rng.uniform(20, 80)
     r = rng.uniform(8, 30)
@@ -114,6 +121,10 @@ def paint_attrs(rng, F, own=True):
         # products that vanish only after rounding (0.02*0.02 at 3 digits, 0.2*0.2 at 1, ...)
         v = rng.choice(["0.02", "0.05", "0.2", "0.004", "0.0004"])
         at = [(k, x) for k, x in at if k not in ("opacity", "fill-opacity")] + [("opacity", v)] + ([("fill-opacity", v)] if rng.random() < 0.7 else [])
+    if F.opacity and rng.random() < 0.04:
+        # out of range: SVG clamps an opacity to [0, 1] before anything is multiplied
+        k = rng.choice(["opacity", "fill-opacity"])
+        at = [(n, x) for n, x in at if n != k] + [(k, rng.choice(["2", "1.5", "-1", "3"]))]
     if F.evenodd and rng.random() < 0.15:
         at.append(("fill-rule", rng.choice(["evenodd", "nonzero"])))
     if F.strokes and rng.random() < 0.5:
@@ -257,6 +268,9 @@ class Gen:
         if rng.random() < 0.5:
             pa = paint_attrs(rng, F)
             pa = [(k, v) for k, v in pa if k not in ("fill-rule",) or rng.random() < 0.5]
+        if F.opacity and len(kids) >= 2 and rng.random() < 0.06:
+            # out of range on a group with several children: clamped to 0 or 1 wherever it is looked at
+            pa = [(k, v) for k, v in pa if k != "opacity"] + [("opacity", rng.choice(["-0.2", "-1", "1.5", "2"]))]
         extra = ""
         if F.transforms and rng.random() < 0.4:
             extra += ' transform="%s"' % rtransform(rng)
@@ -288,6 +302,17 @@ class Gen:
 
     def nested(self, depth):
         rng = self.rng
+        if rng.random() < 0.12:
+            # a nested svg without a size of its own inside one whose viewBox is not its viewport size: the inner one is as
+            # large as the outer's viewBox (overflow visible on both: no viewport clips, whose ids would clash)
+            kids = "".join(self.shape(depth + 2) for _ in range(rng.randint(1, 2)))
+            inner_at = ' viewBox="%s %s %s %s"' % (num(rng, 0, 10, 0), num(rng, 0, 10, 0), num(rng, 30, 90, 0), num(rng, 30, 90, 0))
+            if rng.random() < 0.5:
+                inner_at += ' preserveAspectRatio="%s"' % rng.choice(["none", "xMinYMin", "xMaxYMax slice", "xMidYMid"])
+            inner = '<svg overflow="visible"%s>%s</svg>' % (inner_at, kids)
+            return ('<svg overflow="visible" x="%s" y="%s" width="%s" height="%s" viewBox="0 0 %s %s">%s%s</svg>'
+                    % (num(rng, 0, 30, 0), num(rng, 0, 30, 0), num(rng, 30, 60, 0), num(rng, 30, 60, 0), num(rng, 60, 160, 0), num(rng, 60, 160, 0),
+                       inner, self.shape(depth + 1) if rng.random() < 0.5 else ""))
         kids = "".join(self.node(depth + 1) for _ in range(rng.randint(1, 3)))
         at = ' x="%s" y="%s" width="%s" height="%s"' % (num(rng, 0, 40, 0), num(rng, 0, 40, 0), num(rng, 20, 60, 0), num(rng, 20, 60, 0))
         x, y, w, h = num(rng, 0, 40, 0), num(rng, 0, 40, 0), num(rng, 20, 60, 0), num(rng, 20, 60, 0)
@@ -398,6 +423,8 @@ class Gen:
         defs = []
         if F.gradients:
             defs += [self.gradient() for _ in range(rng.randint(1, 3))]
+            if rng.random() < 0.3:
+                defs.reverse()      # templates after the gradients that refer to them
         if F.clips:
             defs += [self.clippath() for _ in range(rng.randint(1, 3))]
         if F.gradients and self.grad_ids and rng.random() < 0.15:
